@@ -52,3 +52,35 @@ def engine_canaries(R):
     R.extra.setdefault('canaries_fired', [])
     R.extra['canaries_fired'] += fired
     return fired
+
+
+def interval_canary(R, max_ell):
+    from .equiv import final_state
+    from .intervals import Intervals
+    from .values import fmt, sym, Sym
+    FL, FG, FE = ctx.fixtures()
+    box = KBox(FL)
+    out = {}
+    for name in ('fx_i_acc_overflow', 'fx_i_mask32', 'fx_i_ok'):
+        spec = dict(args=[('i', lambda s: s['ell']), ('b', 'res', 'out', lambda s: 8), ('b', 'x', 'in', lambda s: 8 * s['ell'])],
+                    dom=[S(ell=max_ell)])
+        r = box.instantiate(name, spec, S(ell=max_ell), 'accel', expand='values')
+        st = final_state(r, ('out',)).get('res', {})
+        I = Intervals(lambda nm, off, size: (0, (1 << (8 * size)) - 1), fmt)
+        vals = [v for _, (s, v) in st.items()]
+        I.ev_all(vals)
+        wide = [(p, iv) for p, iv in I.mask32_muls if iv[1] >= (1 << 32)]
+        dropped = False
+        if wide:
+            from .props.C04 import reachable
+            nodes = reachable(vals)
+            dropped = any(sym('lshr', 64, p, 32) not in nodes for p, iv in wide)
+        out[name] = (len(I.findings), dropped)
+    if out['fx_i_acc_overflow'][0] == 0:
+        R.broke('interval canary did not fire: fx_i_acc_overflow')
+    if not out['fx_i_mask32'][1]:
+        R.broke('interval canary did not fire: fx_i_mask32 (split multiplication)')
+    if out['fx_i_ok'][0] or out['fx_i_ok'][1]:
+        R.broke('interval negative control fired: fx_i_ok %r' % (out['fx_i_ok'],))
+    R.extra.setdefault('canaries_fired', [])
+    R.extra['canaries_fired'] += ['fx_i_acc_overflow -> add-wraps', 'fx_i_mask32 -> 32-bit operand too wide']
